@@ -13,7 +13,12 @@ MAP = [  # (substring of the commit subject, property)
  ("MessagePack request with str map keys", "C02"), ("null in place of a multi-valued", "C02"),
  ("None return value of complex type", "C02"), ("ModelBase.to_bytes", "C02"),
  ("null member of complex type", "C02"), ("members of a class used more than once", "C03"),
- ("strict_arrays rejected arrays", "C03"), ("JSON soft validation rejected null", "C02"),
+ ("strict_arrays rejected arrays", "C03"), ("SOAP 1.2 fault whose detail dict", "C09"),
+ ("out-of-range date/time fields", "C10"), ("occurrence limits of multi-valued members", "C05"),
+ ("explicit null for a non-nillable multi-valued", "C05"), ("integer text like", "C05"),
+ ("double text like", "C05"), ("decimal text like", "C05"), ("silently read as boolean False", "C05"),
+ ("dates without zero padding", "C05"), ("durations followed by garbage", "C05"),
+ ("soft validation skipped XML attributes", "C05"), ('xsi:nil="false" was read as null', "C05"), ("JSON soft validation rejected null", "C02"),
 ]
 kf = json.load(open(os.path.join(HERE, "known_findings.json")))
 log = subprocess.check_output(["git", "-C", "/repo", "log", "--reverse", "--format=%h\t%s"]).decode().splitlines()
